@@ -77,10 +77,13 @@ Solve(p, v) ==
       [] p = {"c", "l"} -> <<v["c"] - Half(v["l"]), v["c"] - Half(v["l"]) + v["l"]>>
 Vals(lo, hi, p) == [k \in p |-> Project(lo, hi, k)]
 
+\* edges on multiples of 50 grid units: 10, 20, 30 user units on the grid of fifths - values
+\* that are written with trailing zeros before those are trimmed
+BigBoxes == {B(50, 100, 82, 150), B(-100, 50, -50, 82)}
 SolveBoxes ==
     IF Tier = "quick"
-    THEN {B(x, y, x + w, y + h) : x \in {-12, 8}, y \in {-4, 6}, w \in {8, 20}, h \in {8, 12}}
-    ELSE {B(x, y, x + w, y + h) : x \in {-12, 0, 8, 26}, y \in {-4, 0, 6}, w \in {4, 8, 20}, h \in {8, 12, 28}}
+    THEN {B(x, y, x + w, y + h) : x \in {-12, 8}, y \in {-4, 6}, w \in {8, 20}, h \in {8, 12}} \cup BigBoxes
+    ELSE {B(x, y, x + w, y + h) : x \in {-12, 0, 8, 26}, y \in {-4, 0, 6}, w \in {4, 8, 20}, h \in {8, 12, 28}} \cup BigBoxes
 
 SolveCases ==
     {[fam |-> "solve", shape |-> s, box |-> b, px |-> px, py |-> py, dx |-> d[1], dy |-> d[2],
